@@ -68,6 +68,7 @@ type Contract struct {
 	Ensures   []*Clause
 	Lets      []*LetDef // `let name = expr`: post-state abbreviations usable in ensures clauses
 	Sites     []*CallSiteSpec
+	Unfold    []string // callees (key suffixes) whose bodies are executed at their call sites in this function
 	Modifies  []*Expr
 	ModAll    bool // modifies *
 	HasMod    bool
@@ -568,7 +569,7 @@ func (p *parser) primary() (*Expr, error) {
 // file structure
 
 var clauseKeywords = map[string]bool{
-	"contract": true, "let": true, "callsite": true, "assert": true, "assume": true, "requires": true, "ensures": true, "modifies": true,
+	"contract": true, "let": true, "callsite": true, "assert": true, "unfold": true, "assume": true, "requires": true, "ensures": true, "modifies": true,
 	"invariant": true, "decreases": true, "loop": true, "spec": true, "axiom": true, "ghost": true,
 	"valid": true, "inline": true, "pure": true, "wraps": true, "maypanic": true, "theory": true,
 	"package": true, "import": true, "opaque": true, "split": true, "noeffect": true, "trusted": true,
@@ -680,6 +681,11 @@ func ParseSpecFile(path, defaultPkg string) (*SpecFile, error) {
 			c.File, c.Line = path, it.line
 			sf.Contracts = append(sf.Contracts, c)
 			cur, curLoop, curCase, curSite = c, nil, nil, nil
+		case "unfold":
+			if cur == nil {
+				return nil, fail(fmt.Errorf("unfold outside contract"))
+			}
+			cur.Unfold = append(cur.Unfold, strings.Fields(rest)...)
 		case "callsite":
 			if cur == nil {
 				return nil, fail(fmt.Errorf("callsite outside contract"))
